@@ -244,7 +244,7 @@ func yieldHook(site int) {
 	st.counts[t*st.nSites+site]++
 	st.total++
 	ts.yields++
-	if st.total-st.lastProgress > StepCap {
+	if st.total-st.lastProgress > StepCapFor(st.nTasks) {
 		st.stepCap = true
 		st.active = false
 		handOff(t, Main, true)
@@ -584,6 +584,19 @@ func setup(n int, seed uint64, pol Policy, replay [][]Decision) {
 	st.cur = Main
 	st.deadlock, st.stepCap = false, false
 	st.switches, st.gateBlocks, st.preemptInClosure, st.gateContention, st.gateCalls, st.gateCallsOpen = 0, 0, 0, 0, 0, 0
+}
+
+// StepCapFor is the no-progress bound for n tasks: with many tasks interleaved
+// evenly, none completes an operation before all of them nearly have, so the
+// bound grows with the number of tasks (StepCap per eight tasks).
+//
+//go:norace
+func StepCapFor(n int) uint64 {
+	k := (n + 7) / 8
+	if k < 1 {
+		k = 1
+	}
+	return uint64(k) * StepCap
 }
 
 // OpBoundary is called by a task body when it has completed an operation.
